@@ -12,7 +12,15 @@ instr (tuples): ("t", code) ("b", kind, body) ("f", "c"|"s", body) ("c", name, N
                 ("i", site) ("g", g)
 Termination by construction: named templates call higher-numbered ones only; select="." re-application only
 from a rule without mode into mode m1; top-level variables do not refer to top-level variables (a rule reached
-from one through xsl:apply-imports/xsl:apply-templates may: that is the circularity error on both sides)."""
+from one through xsl:apply-imports/xsl:apply-templates may: that is the circularity error on both sides).
+
+Stream "wp" (gen_case(..., with_wp=True); oracle only, the model line does not know it): one more instruction
+("w", "c"|"s", mode, body) = xsl:apply-templates with <xsl:with-param name="p"> whose content is body.  In such a case every
+match rule starts with <xsl:param name="p"/><xsl:value-of select="$p"/>, so the value of the parameter shows in the output.
+The content of xsl:with-param belongs to the template that contains the xsl:apply-templates: current node, current template
+rule and current mode are those of that template, not the mode named by the instruction (section 5.6: xsl:apply-imports
+there works "in the current template rule's mode").  The draws of the other streams are unchanged (no draw is added
+unless with_wp)."""
 import re
 
 XSL = "http://www.w3.org/1999/XSL/Transform"
@@ -24,7 +32,8 @@ BLOCK_KINDS = 6
 
 
 class Gen:
-    def __init__(self, r, cid, with_globals, n_mod=None):
+    def __init__(self, r, cid, with_globals, n_mod=None, with_wp=False):
+        self.with_wp = with_wp
         self.r = r
         self.cid = cid
         self.texts = {0: ""}
@@ -93,9 +102,12 @@ class Gen:
                 out.append(("c", name, wp))
             elif c < 0.74:
                 if ctx["kind"] == "rule" and ctx["mode"] is None and r.random() < 0.3:
-                    out.append(("a", "s", "m1"))
+                    a = ("a", "s", "m1")
                 else:
-                    out.append(("a", "c", r.choice(MODES)))
+                    a = ("a", "c", r.choice(MODES))
+                if self.with_wp and depth < 2 and r.random() < 0.7:
+                    a = ("w", a[1], a[2], self.body(ctx, depth + 1, in_foreach=in_foreach))
+                out.append(a)
             elif c < 0.93:
                 self.site += 1
                 if in_foreach:      # xsl:apply-imports as a child of xsl:for-each is refused when the stylesheet is compiled
@@ -167,11 +179,11 @@ class Gen:
             direct = len(inner) == 1 and inner[0][0] == "c" and inner[0][2] is None
             g["body"] = inner if direct and r.random() < 0.7 else [("t", self.text("<g%d:" % g["g"]))] + inner + [("t", self.text(">"))]
         return {"id": self.cid, "root": root, "mods": mods, "nodes": nodes, "named": self.named, "globals": self.globals,
-                "texts": self.texts, "with_globals": self.with_globals}
+                "texts": self.texts, "with_globals": self.with_globals, "wp": self.with_wp}
 
 
-def gen_case(r, cid, with_globals, n_mod=None):
-    return Gen(r, cid, with_globals, n_mod).case()
+def gen_case(r, cid, with_globals, n_mod=None, with_wp=False):
+    return Gen(r, cid, with_globals, n_mod, with_wp).case()
 
 
 # --------------------------------------------------------------------------------------------------
@@ -214,6 +226,9 @@ def body_xml(case, body, cnt):
                     ins[1], body_xml(case, ins[2], cnt))
         elif k == "a":
             s += '<xsl:apply-templates select="%s"%s/>' % ("*" if ins[1] == "c" else ".", ' mode="%s"' % ins[2] if ins[2] else "")
+        elif k == "w":
+            s += '<xsl:apply-templates select="%s"%s><xsl:with-param name="p">%s</xsl:with-param></xsl:apply-templates>' % (
+                "*" if ins[1] == "c" else ".", ' mode="%s"' % ins[2] if ins[2] else "", body_xml(case, ins[3], cnt))
         elif k == "i":
             s += "<xsl:apply-imports/>"
         elif k == "g":
@@ -239,9 +254,10 @@ def sheet_files(case):
             if g["mod"] == m["idx"]:
                 s += '<xsl:variable name="g%d">%s</xsl:variable>' % (g["g"], body_xml(case, g["body"], cnt))
         for ru in m["rules"]:
-            s += '<xsl:template match="%s"%s%s>%s</xsl:template>' % (
+            s += '<xsl:template match="%s"%s%s>%s%s</xsl:template>' % (
                 "|".join(a["text"] for a in ru["alts"]), ' mode="%s"' % ru["mode"] if ru["mode"] else "",
-                ' priority="%s"' % prio_text(ru["prio"]) if ru["prio"] is not None else "", body_xml(case, ru["body"], cnt))
+                ' priority="%s"' % prio_text(ru["prio"]) if ru["prio"] is not None else "",
+                '<xsl:param name="p"/><xsl:value-of select="$p"/>' if case.get("wp") else "", body_xml(case, ru["body"], cnt))
         for n in case["named"]:
             if n["mod"] == m["idx"]:
                 s += '<xsl:template name="n%d">%s%s</xsl:template>' % (
@@ -295,6 +311,8 @@ def body_tok(body, named_declares):
             out.append("c %d %s" % (ins[1], "-" if ins[2] is None else "+ " + body_tok(ins[2], named_declares)))
         elif k == "a":
             out.append("a %s %s" % (ins[1], MODE_ID[ins[2]]))
+        elif k == "w":
+            raise ValueError("the model line has no xsl:apply-templates with xsl:with-param (stream wp is oracle only)")
         elif k == "i":
             out.append("i %d" % ins[1])
         elif k == "g":
